@@ -43,6 +43,13 @@ def build_cases(tier, seed, prop):
     cs += C.multi_cases(tier, seed)
     if prop == 'C05':
         cs += extreme_cases(tier, seed)
+    else:
+        # every small hypergeometric triple: the inverse-transform walk must stop at the end of the support for the
+        # largest possible draw whatever the rounding of its pmf terms (support, not only termination)
+        for N in range(1, 13 if tier != 'thorough' else 25):
+            for K in range(0, N + 1):
+                for n in range(0, N + 1):
+                    cs.append(C.mk('hypergeometric', 'u64', [N, K, n], ('c03',)))
     return C.dedup(cs)
 
 
